@@ -88,8 +88,12 @@ func compositeTp(lhs FType, rhs FType) frt.Tuple2[FType, []UniRel] {
 					fa12 := faResolve(fa1)
 					switch (fa12).(type) {
 					case FType_FFieldAccess:
-						rtp, rels := frt.Destr2(compositeTp(fa1.RecType, fa2.RecType))
-						return frt.Pipe(frt.Pipe(FieldAccessType{RecType: rtp, FieldName: fa1.FieldName}, faResolve), (func(_r0 FType) frt.Tuple2[FType, []UniRel] { return withRels(rels, _r0) }))
+						return frt.IfElse(frt.OpEqual(fa1.FieldName, fa2.FieldName), (func() frt.Tuple2[FType, []UniRel] {
+							rtp, rels := frt.Destr2(compositeTp(fa1.RecType, fa2.RecType))
+							return frt.Pipe(frt.Pipe(FieldAccessType{RecType: rtp, FieldName: fa1.FieldName}, faResolve), (func(_r0 FType) frt.Tuple2[FType, []UniRel] { return withRels(rels, _r0) }))
+						}), (func() frt.Tuple2[FType, []UniRel] {
+							return frt.Pipe(emptyRels(), (func(_r0 []UniRel) frt.Tuple2[FType, []UniRel] { return withTp(lhs, _r0) }))
+						}))
 					default:
 						return compositeTp(fa12, rhs)
 					}
